@@ -352,7 +352,7 @@ func vc22PolLE(a, b map[string]any) bool {
 }
 
 func TestVerif_C22(t *testing.T) {
-	res := kit.NewResult("one case = one application of the real data.ApplyPolicy to (snapshot list, policy): lists = all multisets of <= 2 of the 24 table instants (every single-rule policy), all multisets of 3 table instants (calendar count rules; quick tier: every 6th by seed), sampled multisets of 3..6 table instants (ties, future instants), random 7..12-snapshot lists with minute timestamps in UTC / a fixed non-UTC zone; policies = every single-rule policy (6 counts x {1,2,3,5,unlimited}, 6 duration rules x 10 durations, 5 keep-tag sets) and random combinations; plus pairs (policy, raised policy) for monotonicity; distinct by (timestamps+tags, policy); non-trivial when the policy keeps some and removes some snapshots")
+	res := kit.NewResult("one case = one application of the real data.ApplyPolicy to (snapshot list, policy): lists = all multisets of <= 2 of the 24 table instants (every single-rule policy), all multisets of 3 table instants (calendar count rules; quick tier: every 6th by seed), sampled multisets of 3..6 table instants (ties, future instants), random 7..12-snapshot lists with minute timestamps in UTC / a fixed non-UTC zone; policies = every single-rule policy (6 counts x {1,2,3,5,unlimited}, 6 duration rules x 10 durations, 5 keep-tag sets) and random combinations; newest snapshot 0..125 minutes after the start of a month (1 March 2023/2024/2025, 1 April, 1 May, 1 July, 1 December, 1 January; 29 February, 31 March) x 10 durations combining years/months/days with hours x each of the 6 duration rules, the other snapshots around the window start and around the instant 'hours first, calendar part second' would give; plus pairs (policy, raised policy) for monotonicity; distinct by (timestamps+tags, policy); non-trivial when the policy keeps some and removes some snapshots")
 	defer res.Save("")
 	recs := kit.NewNDJSON("recs.ndjson")
 	defer recs.Close()
@@ -548,6 +548,71 @@ func TestVerif_C22(t *testing.T) {
 			}
 			if o, ok := emit(in, p, "random_lists"); ok && j%2 == 0 {
 				mono(in, p, o)
+			}
+		}
+	}
+
+	// ---- D: mixed durations (years/months/days combined with hours) against newest snapshots just after
+	// the start of a month (1 March in leap and non-leap years, months after 30/31-day months, 1 January):
+	// the window start is "calendar part first, then the hours" (vc22Sub); the other snapshots sit around
+	// that instant and around the instant the opposite order would give
+	mixed := []Duration{{Months: 1, Hours: 1}, {Months: 1, Hours: 2}, {Years: 1, Hours: 1}, {Years: 1, Months: 1, Hours: 3}, {Months: 2, Days: 1, Hours: 1},
+		{Months: 1, Hours: 25}, {Days: 1, Hours: 1}, {Years: 1, Months: 11, Days: 30, Hours: 47}, {Months: 3, Hours: 1}, {Days: 31, Hours: 2}}
+	firsts := []time.Time{time.Date(2024, 3, 1, 0, 0, 0, 0, time.UTC), time.Date(2023, 3, 1, 0, 0, 0, 0, time.UTC), time.Date(2025, 3, 1, 0, 0, 0, 0, time.UTC),
+		time.Date(2024, 4, 1, 0, 0, 0, 0, time.UTC), time.Date(2024, 5, 1, 0, 0, 0, 0, time.UTC), time.Date(2025, 1, 1, 0, 0, 0, 0, time.UTC),
+		time.Date(2024, 7, 1, 0, 0, 0, 0, time.UTC), time.Date(2024, 12, 1, 0, 0, 0, 0, time.UTC), time.Date(2024, 3, 31, 0, 0, 0, 0, time.UTC), time.Date(2024, 2, 29, 0, 0, 0, 0, time.UTC)}
+	offs := []int{0, 1, 30, 59, 60, 90, 119, 125}
+	strideD := kit.Pick(4, 1)
+	for _, first := range firsts {
+		for _, off := range offs {
+			for _, d := range mixed {
+				for w := 0; w < 6; w++ {
+					n++
+					if (n+int(kit.Seed()))%strideD != 0 {
+						continue
+					}
+					loc := zones[r.Intn(len(zones))]
+					// the month start is the one of the list's zone: the code does its calendar arithmetic there
+					_, zoff := first.In(loc).Zone()
+					latest := first.Add(time.Duration(off)*time.Minute - time.Duration(zoff)*time.Second).In(loc)
+					t1 := vc22Sub(latest, d)
+					t2 := latest.Add(-time.Duration(d.Hours)*time.Hour).AddDate(-d.Years, -d.Months, -d.Days)
+					lo, hi := t1, t2
+					if hi.Before(lo) {
+						lo, hi = hi, lo
+					}
+					in := []vc22Snap{{tm: latest, tags: tagsets[r.Intn(len(tagsets))]}}
+					add := func(tm time.Time) {
+						if !tm.After(latest) {
+							in = append(in, vc22Snap{tm: tm.In(loc), tags: tagsets[r.Intn(len(tagsets))]})
+						}
+					}
+					add(t1)
+					add(t1.Add(time.Minute))
+					add(t1.Add(-time.Minute))
+					if !t2.Equal(t1) {
+						add(t2)
+						add(lo.Add(hi.Sub(lo) / 2).Truncate(time.Minute))
+						add(hi.Add(-time.Minute))
+						add(lo.Add(61 * time.Minute))
+						res.Count("mixed_duration_order_sensitive", 1)
+					}
+					for k := r.Intn(4); k > 0; k-- {
+						add(lo.Add(time.Duration(r.Intn(4*24*60)-2*24*60) * time.Minute))
+					}
+					if r.Intn(4) == 0 {
+						in = append(in, vc22Snap{tm: time.Date(2099, 3, 1, 0, 30, 0, 0, time.UTC).In(loc), tags: nil})
+					}
+					r.Shuffle(len(in), func(i, j int) { in[i], in[j] = in[j], in[i] })
+					var p vc22Pol
+					p.D[w] = d
+					if r.Intn(4) == 0 {
+						p.D[r.Intn(6)] = mixed[r.Intn(len(mixed))]
+					}
+					if o, ok := emit(in, p, "month_start_mixed_durations"); ok && n%5 == 0 {
+						mono(in, p, o)
+					}
+				}
 			}
 		}
 	}
